@@ -42,10 +42,14 @@ NUMSTRS += ["0x2000000000000101", "0x10000000000000801", "0x1fffffffffffff7f", "
 NUMSTRS += ["0x+10", "0b+1", "0x-1", "0o+7", "0X+fF", " 0X+0 ", "0x+", "0x 1", "12٣", "2²", "1.5٢", "3e٥", "1½", "1٠", "１２", "1e٣", "٣", "1٣e2", "0x1٣", "1.٣", "- 1", "1e+٣"]
 NUMS += [0.3, 0.30000000000000004, 1.0000000000000002, 0.9999999999999999, 1e301, 2e38, 3e38, -1e300, -1e301, 1.7014118346046923e38, 1.7014118346046925e38, 4.000000000000001, 4.0, 1e-6, 1.5e-6, 9.999e-6, 1e-5,
          0.1 + 0.2, 2.2250738585072014e-308, 2.225073858507201e-308, 1e23, 9.999999999999999e22]
+NUMS += [5e-324, 1e-310, 4e-320, -5e-324, 2.2250738585072014e-308, 2.225073858507201e-308, -2.2250738585072014e-308]
 NUMS += [10 ** k + d for k in range(1, 20) for d in (-1, 0, 1) if 10 ** k + d < 2 ** 64] + [float(10 ** k) for k in (15, 16, 17, 22, 23)] + [-(10 ** 15 - 1), -(10 ** 18)]
 NUMSTRS += ["0" * 309 + "7", "1" + "0" * 309 + "e-309", "0." + "0" * 53 + "25e55", "9007199254740993." + "0" * 53 + "1", "0." + "0" * 400 + "1e401", "1" + "0" * 400 + "e-400", "0" * 400, "0" * 400 + ".5",
             "1." + "0" * 60 + "1", "0.1" + "0" * 60 + "9", "4.35" + "0" * 100, "2.5" + "0" * 55 + "1", "9" * 310 + "e-310", "123456789" * 40 + "e-350", "-" + "0" * 320 + "1", "+" + "0" * 320 + "1.0e0", "00000000000000000012px"]
-STRS = ["abc", "a", "b", "A", "null", "true", "false", "[object Object]", "1,2", ",", "é", "éa", "€", "😀", "a😀b", "zz", "10", "9",
+NUMSTRS += ["--5", "+-3", "-+8", "++.5", "- 5", "-\t5", "--0x10", "+-Infinity", "--Infinity", "-+0", "+ 1", "1-", "1+", "5e--3", "5e+-3"]
+STRS = ["id-😀", "id-😁", "id-\uff21", "id-\ufeff", "id-\ufffd", "id-\ue000", "id-𐀀", "😀", "😁", "\uff21", "\ufffd\ufffd", "\ue000z", "𝒳𝒴", "𝒳𝒵",
+        "about 50%sure", "up to 50% off", "%(name)s", "%s", "%d %d", "100%", "{}", "{0}", "{name}", "$x ${y}", "\\n", "%%", "%5.2f", "%c",
+        "abc", "a", "b", "A", "null", "true", "false", "[object Object]", "1,2", ",", "é", "éa", "€", "😀", "a😀b", "zz", "10", "9",
         "a.b", "a\\.b", "undefined"]
 ARRS = [[1, None], [1, ""], [1, []], [None, 1], ["a", None], [1, [None]], [[1], None], ["a", ""], [None, None, None], [], [0], [1], [[]], [None], [1, 2], ["a", "b"], [[1, 2], [3]], [1.5], [{}], ["1"], [" 1 "], [True], [[1]], ["a"], [None, None],
         [2 ** 53 + 1], ["0x10"], [1.0], [-0.0]]
